@@ -54,6 +54,24 @@ CHECKS["C19"] = (
     "DESIGN.md §5 C19",
 )
 
+CHECKS["C06"] = (
+    "reference-model monitor: bump-allocator model of slot assignment + model-free invariants (disjoint, gap-free, declaration order) on assign_api_bindings and compile() metadata",
+    "Every declaration sequence of length <= 2 over 356 options (10% in quick, all 127k in thorough) and thousands of random sequences of "
+    "length 3-12, x 4 target configurations x default group 0..2 (+ no pipeline), is pushed through type_check + assign_api_bindings and "
+    "(1 case in 8) the full compile(); slots, counts, groups and inline-constant blocks must equal an independent allocator model and "
+    "satisfy overlap/gap/order invariants.",
+    "Path (a) trusts the harness copy of the per-target binding parameters; the real mapping in compile.rs is exercised on path (b) only. Groups stay in 0..2.",
+    "DESIGN.md §5 C06",
+)
+CHECKS["C11"] = (
+    "reference-model monitor: independent C preprocessor automaton + u64 condition evaluator vs. the surviving token stream",
+    "All directive sequences of length <= 5 (quick) / <= 6 (thorough) over the property's 12-symbol alphabet are enumerated exhaustively, plus "
+    "random sequences of length 7-9, nested programs to depth 8 and random condition expressions to depth 5; the tokens that survive "
+    "preprocessing (every text line carries an id and a macro use) must equal the reference, broken chains must be rejected.",
+    "Trusts the reference preprocessor (self-checked against direct evaluation at start-up). Sequences C forbids have no reference value and are skipped.",
+    "DESIGN.md §5 C11",
+)
+
 NOT_YET = {}
 
 def main():
